@@ -16,7 +16,11 @@ const rtPkg = "github.com/google/mtail/internal/runtime"
 // generates verifCompile(name, content): the compiler's own answer for each
 // text, as an object constructor or as the refusal.
 func loaderGen() (map[string]string, error) {
-	src, err := readHarness("runtime/loader.go")
+	return loaderGenFor("runtime/loader.go", "runtime")
+}
+
+func loaderGenFor(harnessFile, pkg string) (map[string]string, error) {
+	src, err := readHarness(harnessFile)
 	if err != nil {
 		return nil, err
 	}
@@ -31,7 +35,7 @@ func loaderGen() (map[string]string, error) {
 		names = append(names, m[1])
 		ins = append(ins, bridgeIn{Name: "PROG", Src: txt})
 	}
-	if len(ins) < 5 {
+	if len(ins) < 1 {
 		return nil, fmt.Errorf("loader harness: program texts not found")
 	}
 	outs, err := runBridge(ins)
@@ -39,7 +43,7 @@ func loaderGen() (map[string]string, error) {
 		return nil, err
 	}
 	var b strings.Builder
-	b.WriteString(genHeaderPkg("runtime", "github.com/pkg/errors"))
+	b.WriteString(genHeaderPkg(pkg, "github.com/pkg/errors"))
 	b.WriteString("var _ = errors.New\n\n")
 	var sw strings.Builder
 	for i, o := range outs {
@@ -139,6 +143,9 @@ func init() {
 			j.Harness = append(j.Harness, "runtime/c20.go")
 			j.NativeOnly = []string{"runtime/c20_native.go"}
 			j.Substs = c20Substs()
+			// natively the dispatcher ranges over a Go map (random order) and
+			// hold-backs are timed: a counterexample gets up to 6 native runs
+			j.NativeRepeat = 6
 			return []JobDef{j}
 		},
 		Outside: []string{"schedules of the dispatcher and VM goroutines other than run-to-quiescence with a VM held back before a line (preemption of a VM in the middle of a line, of the dispatcher between two programs)", "more than one reload; several programs; reloads through SIGHUP or the poll loop", "programs with patterns (every line is the same to these programs)"}})
@@ -164,6 +171,32 @@ func init() {
 			"the tailer's and the streams' goroutines run under the engine's deterministic scheduler; after each wake-up they run until none can go on (natively: 60 ms), which is the property's 'after the next pattern poll' premise: nothing is claimed for edits that race with a poll",
 		}, baseAssumptions...),
 		Outside: []string{"histories longer than the bound; names outside the six-name universe; nested directories and patterns with directory wildcards", "unreadable files, symbolic links, sockets and pipes (C17)", "edits that race with a poll in progress"}})
+}
+
+// ---- C19: a one-shot run of tailer + runtime ----
+
+const mtailPkg = "github.com/google/mtail/internal/mtail"
+
+func init() {
+	register(&CheckDef{ID: "C19", Level: "model_checking", Only: []string{"C19."},
+		Jobs: func(tier string) []JobDef {
+			gen, err := loaderGenFor("mtail/c19.go", "mtail")
+			if err != nil {
+				return []JobDef{{Name: "bridge-failed: " + err.Error(), Pkg: mtailPkg, Dir: "internal/mtail", Entry: "missing"}}
+			}
+			maxn := 3
+			if tier == "thorough" {
+				maxn = 4
+			}
+			return []JobDef{{Name: fmt.Sprintf("oneshot-n%d", maxn), Pkg: mtailPkg, Dir: "internal/mtail",
+				Harness: []string{"mtail/c19.go"}, EngineOnly: []string{"mtail/c19_engine.go"}, NativeOnly: []string{"mtail/c19_native.go"}, Entry: "HarnessC19OneShot", Params: p("maxn", maxn), GenFiles: gen,
+				Bound: fmt.Sprintf("two programs (a counter of all lines, a counter of lines per file name) and 1..2 log files of 0..%d arbitrary bytes each in the model directory; runtime.New then tailer.New in one-shot mode on one unbuffered channel and one WaitGroup, as mtail.New wires them; wait for the WaitGroup", maxn)}}
+		},
+		Assumptions: append([]string{
+			"the wiring is the harness's copy of mtail.New's (runtime.New, then tailer.New with OneShot and the log pattern, sharing one unbuffered lines channel and one WaitGroup; Run = wg.Wait); the exporter, the HTTP server and the Prometheus registry are not started",
+			"file system model, compiler answers (bridge) and scheduler as in C16/C26/C18: one deterministic schedule of the tailer, stream, dispatcher and VM goroutines",
+		}, baseAssumptions...),
+		Outside: []string{"schedules other than the engine's", "more than two files, longer contents, programs with patterns", "the exporter's final metric dump and the process exit path in main"}})
 }
 
 func loaderC26Jobs(tier string) []JobDef {
